@@ -31,7 +31,7 @@ structure E where
   vars : List Nat                -- mVariables
   odes : List Nat                -- mOdeVariables
   all : List Nat                 -- mAllVariables
-  deps : List Nat := []          -- mDependencies (classes)
+  deps : List (Nat × Nat) := []  -- mDependencies: (class, component of its representative when the dependency was recorded)
   unknowns : List Nat := []      -- mUnknownVariables
   ctc : Bool := true             -- mComputedTrueConstant
   cvc : Bool := true             -- mComputedVariableBasedConstant
@@ -90,7 +90,7 @@ def assign (comp : Nat) (ctc cvc : Bool) : List Nat → St → List Nat → Opti
 def prepare (s : St) (e : E) (nla : Bool) : St × E × List Nat :=
   let hasKnown := e.vars.any (isKnown s) || e.odes.any (isKnown s)
   let hasNonConst := e.vars.any (isNonConstant s) || e.odes.any (isNonConstant s)
-  let e := { e with ctc := e.ctc && !hasKnown, cvc := e.cvc && !hasNonConst, deps := e.deps ++ e.vars.filter (isKnown s),
+  let e := { e with ctc := e.ctc && !hasKnown, cvc := e.cvc && !hasNonConst, deps := e.deps ++ (e.vars.filter (isKnown s)).map (fun v => (v, (s.v v).rep)),
                     vars := e.vars.filter (fun v => !isKnown s v), odes := e.odes.filter (fun v => !isKnownOde s v) }
   let left := e.vars.length + e.odes.length
   let inits := if nla && left = 0 then e.all.filter (fun v => (s.v v).ty = .initialised || (s.v v).ty = .initAlg) else []
@@ -136,7 +136,7 @@ def settle (s : St) (e : E) (inits : List Nat) (nla : Bool) : St × E × Bool :=
     match assign e.comp e.ctc e.cvc (toAssign e inits) s [] with
     | none => (s, e, false)      -- early `return false` (an uninitialised state, which makes the model invalid)
     | some (s', unk) =>
-      (s', { e with ty := eqType s' e (unknownLeftOf e), unknowns := e.unknowns ++ unk, deps := e.deps.filter (fun d => !unk.contains d) }, true)
+      (s', { e with ty := eqType s' e (unknownLeftOf e), unknowns := e.unknowns ++ unk, deps := e.deps.filter (fun d => !unk.any fun u => d = (u, (s'.v u).rep)) }, true)
   else (s, e, false)
 
 /-- the body of `AnalyserInternalEquation::check` for an untyped equation `e`: the new state (variables and
